@@ -93,7 +93,7 @@ def main():
             na.append({"property_id": pid, "reason": NOT_YET.get(pid, "check not built yet in this tree (runtime-monitoring design in DESIGN.md §3 " + pid + "); not claimed until its monitor exists and is silent on the unchanged tree")})
     m = {
         "version": 1,
-        "setup_cmd": "GOFLAGS=-mod=mod GOPROXY=off GOSUMDB=off GOTOOLCHAIN=local go build -o bin/vcheck ./cmd/vcheck && bin/vcheck warm",
+        "setup_cmd": "GOFLAGS=-mod=mod GOPROXY=off GOSUMDB=off GOTOOLCHAIN=local go build -o bin/vcheck ./cmd/vcheck && GOFLAGS=-mod=mod GOPROXY=off GOSUMDB=off GOTOOLCHAIN=local go test ./ref/... && bin/vcheck warm",
         "hooks": {
             "guard": "verif",
             "enable": "none needed: monitors sit at boundaries the caller owns (sink, source, generated package scope, bytebufferpool module replaced in the scratch module); no file under /repo carries the tag",
